@@ -73,23 +73,28 @@ impl super::Authorizer {
             Some(execution_time).filter(|_| execution_time > Duration::default());
 
         let mut public_key_to_block_id: HashMap<usize, Vec<usize>> = HashMap::new();
+        // the key -> blocks map has to be complete before any block is loaded:
+        // a rule can trust the key that signs a later block
+        for (i, block) in world.blocks.iter().enumerate() {
+            if let Some(key) = block.external_key.as_ref() {
+                let key = PublicKey::from_proto(key)?;
+                public_key_to_block_id
+                    .entry(authorizer.symbols.public_keys.insert(&key) as usize)
+                    .or_default()
+                    .push(i);
+            }
+        }
+
         let mut blocks = Vec::new();
         for (i, block) in world.blocks.iter().enumerate() {
-            let token_symbols = if block.external_key.is_none() {
-                authorizer.symbols.clone()
-            } else {
-                let mut token_symbols = authorizer.symbols.clone();
-                token_symbols.public_keys = authorizer.symbols.public_keys.clone();
-                token_symbols
-            };
+            let token_symbols = authorizer.symbols.clone();
 
             let mut block = proto_snapshot_block_to_token_block(block)?;
 
-            if let Some(key) = block.external_key.as_ref() {
-                public_key_to_block_id
-                    .entry(authorizer.symbols.public_keys.insert(key) as usize)
-                    .or_default()
-                    .push(i);
+            // in a snapshot every block, third-party blocks included, refers to
+            // the snapshot's symbol and public key tables
+            if block.external_key.is_some() {
+                block.symbols = token_symbols.clone();
             }
 
             load_and_translate_block(
